@@ -846,7 +846,34 @@ class Builder:
         saved = self.dangling
         self.dangling = []
         for h in s.handlers:
-            types = self.r.exc_type_names(h.type, ctx)
+            htype, hctx = h.type, ctx
+            if isinstance(htype, ast.Name) and frame.parent is not None and \
+                    htype.id in ctx.func.params:
+                # `except errors:` with the classes handed in by this
+                # inlining site (or left to the parameter's default)
+                from .model import walk_own
+                fn = ctx.func
+                if not any(isinstance(x, ast.Name) and x.id == htype.id and
+                           isinstance(x.ctx, (ast.Store, ast.Del))
+                           for x in walk_own(fn.node)):
+                    ax = frame.arg_exprs.get(htype.id)
+                    if ax is not None:
+                        if isinstance(ax[0], (ast.Tuple, ast.Name,
+                                              ast.Attribute)):
+                            htype, hctx = ax[0], ax[1].ctx
+                    else:
+                        fa = fn.node.args
+                        allp = [a.arg for a in fa.posonlyargs + fa.args]
+                        if htype.id in allp:
+                            di = allp.index(htype.id) - (
+                                len(allp) - len(fa.defaults))
+                            if 0 <= di < len(fa.defaults):
+                                htype = fa.defaults[di]
+                        else:
+                            for a, d in zip(fa.kwonlyargs, fa.kw_defaults):
+                                if a.arg == htype.id and d is not None:
+                                    htype = d
+            types = self.r.exc_type_names(htype, hctx)
             hn = self._new('handler', h, frame)
             hn.extra['types'] = types
             hnodes.append((types, hn))
